@@ -14,11 +14,15 @@ CHECK = {
     "level": "exploration",
     "rule": ("stage valid: case = one polygon set that is epsilon-valid by construction (exactly simple star / x-monotone / "
              "spiral / comb / needle-comb / convex contours under a random orientation-preserving affine map; holes and "
-             "islands inside inscribed discs of their parent, nesting depth <= 4; 1-3 faces in disjoint discs; scale "
+             "islands inside inscribed discs of their parent, nesting depth <= 4; or rectilinear faces on an integer grid "
+             "with rectangular holes/islands sharing exact coordinates; 1-3 faces in disjoint regions; every set is re-checked "
+             "with exact arithmetic before use; scale "
              "1e-9..1e9; then only perturbations that stay within epsilon of that set: collinear vertices exact or < eps/2 "
              "off the edge, duplicates within eps/4), epsilon in {default -1, the default value passed explicitly, 0, up to "
              "min(1e-3*size, 1% of the smallest contour clearance / mean contour width)}; cases whose epsilon cannot be kept "
-             "below that bound are skipped and counted. Both allowConvex settings, through Triangulate or TriangulateIdx "
+             "below that bound are skipped and counted. Each set is tagged with a regime: eps-zero (explicit epsilon 0), "
+             "thin-feature (two contour edges sharing no vertex are closer than 4*epsilon, e.g. a needle narrower than "
+             "epsilon) or general; violation keys carry the regime. Both allowConvex settings, through Triangulate or TriangulateIdx "
              "(permuted / gapped index labels), must EACH satisfy: indices are input indices; count = V-2+2h-2(o-1); every "
              "input edge exactly once in input direction, its reverse absent, every other directed edge as often as its "
              "reverse; every triangle CCW within epsilon in the library's own meaning (utils.h CCW with tol=2*eps as in "
@@ -63,6 +67,8 @@ CHECK = {
         "evaluated on the longest edge; triangles between the tol=epsilon and tol=2*epsilon readings are counted, not decided",
         "effective epsilon for epsilon<0 is 1e-12 * max|coordinate| (Rect::Scale()*kPrecision, polygon.cpp:690)",
         "exceptions on invalid input: only manifold::geometryErr / topologyErr (MANIFOLD_DEBUG builds) are documented; none exist in the -DNDEBUG build under test",
+        "the regimes eps-zero and thin-feature are inside the property's quantifier (exactly valid sets are epsilon-valid for every epsilon) and are tested, "
+        "but they are keyed separately because the library is known to fail there (open findings)",
         "garbage and reuse stages exclude rings with < 2 points (they crash, see known findings); those are enumerated in stage 'rings'",
         "g++ -fsanitize=address,undefined build of /repo's working tree, -DNDEBUG, MANIFOLD_PAR=-1; ASan quarantine reduced to 16 MB for these stages",
     ],
@@ -75,8 +81,10 @@ TEXT = {
              "exactly V-2+2h-2(o-1) triangles over input indices, uses every input edge once in input direction, pairs every "
              "other edge with its reverse, is CCW within epsilon and sums to the polygon area; one reused PolygonTriangulator "
              "gives bit-identical halfedges to fresh ones over sequences of unrelated inputs; arbitrary finite garbage returns "
-             "with in-range indices under ASan+UBSan. Known open findings: rings with 0 points are dereferenced (UB) and a lone "
-             "1-point ring throws std::length_error with allowConvex=true."),
+             "with in-range indices under ASan+UBSan. Open findings (reproducers in known_findings.d): empty rings are dereferenced (UB); a "
+             "lone 1-point ring throws std::length_error with allowConvex=true; explicit epsilon 0 is used literally and gives "
+             "clockwise triangles on simple grid-aligned inputs; with default epsilon the convex fast path can be taken for a "
+             "non-convex polygon with a duplicated vertex; needles/slits narrower than epsilon give grossly clockwise triangles."),
     "note": ("Sampling, not proof. Trusts the harness's generators (validity by construction) and oracle. Regularised outputs of "
              "CrossSection Booleans and the repo's polygon corpus are not part of this workload. Termination is observed through "
              "the driver's watchdog only."),
